@@ -1,4 +1,4 @@
-"""One-off helper: try to translate every @wp.func of every module; print which translate.
+"""One-off helper: try to translate every @wp.func / @wp.kernel of every module; write /tmp/discover.json.
 Used to grow targets.py; not part of the checks."""
 import ast, os, sys, json
 from . import tiera
@@ -6,7 +6,8 @@ from . import tiera
 def main():
   src_dir = os.path.join(tiera.REPO, "mujoco_warp", "_src")
   reg = tiera.Registry()
-  res = {}
+  res = {"funcs": {}, "kernels": {}}
+  nerr = {}
   for f in sorted(os.listdir(src_dir)):
     if not f.endswith(".py") or f.endswith("_test.py") or f in ("__init__.py", "cli.py", "jax_test.py"):
       continue
@@ -17,13 +18,17 @@ def main():
       print("skip module", modname, type(e).__name__, e)
       continue
     for name, fn in m.funcs.items():
-      if tiera.ModuleTranslator.is_wp_func(fn):
+      if tiera.ModuleTranslator.is_wp_func(fn) and not m.is_generic(name):
         m.translate_func(name)
-    ok = [n for n in m.funcs if n in m.sigs]
-    res[modname] = ok
-    print(modname, "ok", len(ok), "fail", len(m.errors))
+      elif tiera.ModuleTranslator.is_kernel(fn):
+        m.translate_func(name)
+    okf = [n for n in m.funcs if m.key(n, None) in m.sigs and m.kinds[m.key(n, None)] != "kernel"]
+    okk = [n for n in m.funcs if m.key(n, None) in m.sigs and m.kinds[m.key(n, None)] == "kernel"]
+    res["funcs"][modname] = okf
+    res["kernels"][modname] = okk
+    print(modname, "funcs ok", len(okf), "kernels ok", len(okk), "fail", len(m.errors))
     for k, v in m.errors.items():
-      print("    ", v[:160])
+      print("    ", v[:170])
   json.dump(res, open("/tmp/discover.json", "w"), indent=1)
 
 if __name__ == "__main__":
